@@ -125,6 +125,11 @@ def gen_inputs(ctx, tier):
         inputs.append(("macro_fuzz", gen_text.macro_fuzz(rng)))
     for _ in range(nmac // 2):
         inputs.append(("procedure_values", gen_text.procedure_values(rng)))
+    exports = gen_text.stdlib_exports()
+    for _ in range(nmac // 2):
+        inputs.append(("shared_object_args", gen_text.shared_object_calls(rng, exports)))
+    for t in gen_text.shared_object_sweep():
+        inputs.append(("shared_object_sweep", t))
     # every exported procedure called with 0..3 arguments of assorted types, directly and from tail positions
     args_pool = ["1", "'a", "'(1 2)", "#(1 2)", "car", "\"s\"", "-1", "1/2", "1.5", "'()", "#t"]
     for name in gen_text.stdlib_exports():
@@ -150,6 +155,12 @@ def gen_inputs(ctx, tier):
         inputs.append(("mutant", gen_text.mutate_tokens(rng, rng.choice(forms), vocab)))
     for f in forms:
         inputs.append(("corpus", " ".join(f)))
+    # vectors that contain themselves, directly and through other vectors and lists: printed, compared, searched for
+    for t in ["(define v (vector 1 2)) (vector-set! v 0 v) (display v)", "(define a (vector 0)) (define b (vector a 1)) (vector-set! a 0 b) (display (list a b))",
+              "(define v (vector 1 2)) (vector-set! v 1 (list v v)) (display v) (equal? v v) (eqv? v (vector-ref v 1))", "(define v (make-vector 3 0)) (vector-set! v 2 (vector v)) (display (vector v v))",
+              "(define v (vector 1)) (vector-set! v 0 v) (vector-set! '#(1) 0 v)", "(define v (vector 1)) (vector-set! v 0 v) (vector-ref v v)", "(define v (vector 1)) (vector-set! v 0 v) (car v)",
+              "(define v (vector 1)) (vector-set! v 0 v) (memv v (list 1 v))", "(define v (vector 1)) (vector-set! v 0 v) (equal? (list v) (list v))", "(define v (vector 1)) (vector-set! v 0 v) v"]:
+        inputs.append(("self_containing", t))
     nh = 3000 if tier == "quick" else core.share(40000)
     for _ in range(nh):
         inputs.append(("hostile_chars", gen_text.hostile(rng, vocab)))
@@ -173,6 +184,33 @@ def gen_inputs(ctx, tier):
             e = "(%s %s)" % (rng.choice(["floor", "ceiling", "abs", "-", "/", "exact", "number->string"]), e)
         inputs.append(("numeric", e))
     return inputs
+
+
+def import_leg(ctx, n):
+    """import declarations with unusual library names (.. . / empty names, names with separators), each as the FIRST form of a fresh interpreter, so
+    that the loader really goes looking for a file; then the interpreter must still work"""
+    rng = ctx.rng
+    texts = [gen_text.odd_imports(rng) for _ in range(n)]
+    jobs = [{"id": "imp%d" % i, "interps": [{"stdlib": False, "natives": False}], "steps": [{"src": t}, {"src": "(import (scheme base))"}, {"src": "(+ 40 1)"}], "fuel": 20000}
+            for i, t in enumerate(texts)]
+    recs = core.run_jobs(jobs, "dev", timeout=900, tag="c07i")
+    for t, rec in zip(texts, recs):
+        ctx.evaluations += 1
+        ctx.count("inputs_odd_imports")
+        if rec is None:
+            ctx.inconclusive_cases += 1; continue
+        if "abort" in rec or "hang" in rec:
+            ctx.violation({"kind": "abort", "what": "process aborted or hung on an import declaration", "input": t, "leg": "imports", "detail": rec.get("abort") or rec.get("hang")}, {"input": t})
+            continue
+        for s in rec.get("steps", []):
+            k, v = core.outcome(s)
+            if k == "panic":
+                ctx.violation(core.panic_desc(v, {"what": "panic on an import declaration with an unusual library name", "input": t, "leg": "imports"}), {"input": t, "panic": v})
+                break
+        else:
+            k0, v0 = core.outcome(rec["steps"][0])
+            ctx.nontriv("import:%s" % (v0.get("kind") if isinstance(v0, dict) and k0 == "err" else k0))
+    ctx.legs.append("imports")
 
 
 def file_leg(ctx):
@@ -280,6 +318,7 @@ def run(tier, seed):
         judge(ctx, jobs, chunks, recs, leg)
         ctx.legs.append(leg)
     confirm_hangs(ctx)
+    import_leg(ctx, 600 if tier == "quick" else core.share(12000))
     if core.PART_I == 0:
         file_leg(ctx)
         ctx.legs.append("files(api+cli)")
